@@ -201,7 +201,7 @@ func callableMatrix() []callCase {
 				}
 				// a case that waits for ever (a known finding predicts it) is cut short
 				cc.cs.Timeout = 5 * time.Second
-				if _, effect := predict(cc); effect == "hang" {
+				if _, effect := predict(cc, nil); effect == "hang" {
 					cc.cs.Timeout = 60 * time.Millisecond
 				}
 				all = append(all, cc)
@@ -397,8 +397,8 @@ func callableCases(c *hx.Ctx) error {
 	if err != nil {
 		return err
 	}
-	c.Res.SpecChecks["callables: analogous Go programs run under gc"] += len(gc)
-	c.Res.Histogram["callables gc seconds"] = int(time.Since(t0).Seconds())
+	c.Res.SpecChecks["callables: records of the analogous Go programs under gc"] += len(gc)
+	c.Res.Histogram["callables gc seconds (0: cached records)"] = int(time.Since(t0).Seconds())
 	if show := os.Getenv("VERIF_C05_SHOW"); show != "" { // print the source of cases (to record a minimal input)
 		for _, cc := range all {
 			if strings.Contains(","+show+",", ","+cc.id()+",") {
@@ -407,6 +407,9 @@ func callableCases(c *hx.Ctx) error {
 		}
 	}
 	active := activeClasses(c, all, gc)
+	if err := funcValueTie(c, all, gc); err != nil {
+		return err
+	}
 	type stat struct{ predicted, cameTrue int }
 	stats := map[string]*stat{}
 	firstMiss := map[string]callCase{}
@@ -437,10 +440,7 @@ func callableCases(c *hx.Ctx) error {
 		if _, ok := gc[cc.gcKey]; ok {
 			c.Res.Hist("callables compared with gc")
 		}
-		class, effect := predict(cc)
-		if !active[class] {
-			class = ""
-		}
+		class, effect := predict(cc, active)
 		got, clause := observe(cc, o, tr, gc)
 		if class != "" {
 			st := stats[class]
